@@ -28,6 +28,9 @@ CHECKS = {
  "C19": ("reference-model monitor, exhaustive for a bounded space: all documents over a 6-symbol multi-byte alphabet up to length 6/7 x all offsets and span pairs, against an independent prefix counter; second oracle in Python on random long documents; terminal line:col vs the same count",
          "Exhaustive enumeration (exhaustive: true for the stated bound) plus random long documents; every conversion is executed by the real functions.", 
          "Characters are Unicode scalars; LF is the only line terminator.", "5/C19"),
+ "C07": ("reference-model monitor, exhaustive for a bounded space: operator x operand-kind x exponent-kind shapes x binding positions; checker verdicts in-process against a transcription of the documented table, then rustc verdict + printed value of every accepted shape against incanref",
+         "Every depth-1 shape (thorough: depth-2 nestings) is checked in every binding position by the real TypeChecker (accept T / reject other kinds), and every accepted shape is built by the real `incan build` and run; value and numeric kind must match the reference. Exploration, exhaustive for the stated depth.",
+         "The table transcription (25 lines) is the oracle; `x: float = <int expr>` is left unspecified.", "5/C07"),
 }
 WIP = "check not built yet in this round (work in progress; see DESIGN.md section 5 for the planned monitor)"
 ALL = ["C%02d" % i for i in range(1, 21)]
